@@ -186,8 +186,9 @@ func H_C20_backprop() {
 func H_C20_rand() {
 	shared, _ := mk("s", []int{2}, true)
 	vrt.FootprintBegin(shared)
-	a, e1 := tensor.RandU([]int{2, 2}, vrt.Float("lo"), vrt.Float("lo")+1, nil)
-	b, e2 := tensor.RandN([]int{2, 2}, vrt.Float("mu"), 1, nil)
+	// one element each: a sampler written as a rejection loop multiplies the paths per element
+	a, e1 := tensor.RandU([]int{1}, vrt.Float("lo"), vrt.Float("lo")+1, nil)
+	b, e2 := tensor.RandN([]int{1}, vrt.Float("mu"), 1, nil)
 	w := vrt.FootprintEnd("mode=race")
 	vrt.Assert("random constructors accepted", e1 == nil && e2 == nil && a != nil && b != nil)
 	vrt.Assert("random constructors write to no pre-existing qeep object", w == 0)
